@@ -31,3 +31,33 @@ def top_level_double_dash_is_swallowed():
 def version_option_drops_trailing_arguments():
     """D44: `git --version status -s`: plain git runs `git version status -s` and fails (exit 129, unknown switch); the proxy runs `git version`."""
     return _twin_cmd("--version", "status", "-s")
+
+
+def _alias_tokens(value, tag):
+    """git's own split of an alias value (GIT_TRACE) against parse_alias_tokens (probe)."""
+    import json, re, shlex, subprocess
+    from .. import runner as R
+    from ..world import World, REAL_GIT
+    w = World(name="WC18a", mode="plain")
+    try:
+        w.write_bytes("a.txt", b"x\n"); w.git("add", "-A", plain=True); w.git("commit", "-q", "-m", "init", plain=True)
+        p = subprocess.run([REAL_GIT, "-c", "alias.zz=" + value, "zz"], cwd=w.repo, env=dict(w.env(), GIT_TRACE="1"), stdout=subprocess.PIPE, stderr=subprocess.PIPE)
+        err = p.stderr.decode("utf-8", "replace")
+        m = re.search(r"trace: alias expansion: zz => (.*)", err)
+        git = shlex.split(m.group(1)) if m else ("rejected" if "bad alias" in err else None)
+        q = subprocess.run([R.PROBE, "c18alias", value], stdout=subprocess.PIPE, stderr=subprocess.PIPE, env=dict(GIT_AI_DEBUG="0", HOME="/nonexistent-home"))
+        ours = json.loads(q.stdout)["tokens"]
+        same = (ours == git) if git != "rejected" else (ours is None)
+        return ([] if same else ["C18/alias-tokens-differ@" + tag]), dict(value=value, git=git, git_ai=ours)
+    finally:
+        w.destroy()
+
+
+def alias_value_with_empty_quoted_argument():
+    """D48 (fixed): alias value `log ''` — git splits it into `log` and an empty argument; parse_alias_tokens dropped the empty one."""
+    return _alias_tokens("log ''", "empty-quoted")
+
+
+def alias_value_ending_in_backslash():
+    """D49: alias value `log -1\\` — git rejects it (cmdline ends with \\); parse_alias_tokens keeps the backslash (pinned by a unit test)."""
+    return _alias_tokens("log -1\\", "trailing-backslash")
